@@ -869,6 +869,19 @@ impl Property for C20 {
         out
     }
 
+    fn valid(&self, sc: &Sc) -> bool {
+        let faces_ok = !sc.mesh.f.is_empty() && (0..sc.mesh.f.len()).all(|i| sc.mesh.area(i) > 1e-13);
+        let class_ok = match sc.kind {
+            Kind::Reject => !is_disk(&sc.mesh),
+            _ => is_disk(&sc.mesh),
+        };
+        faces_ok
+            && class_ok
+            && !sc.poses.is_empty()
+            && sc.uv_queries.iter().all(|q| q.face < sc.mesh.f.len())
+            && sc.near_queries.iter().all(|q| q.face < sc.mesh.f.len())
+    }
+
     fn fingerprints(&self, sc: &Sc, _v: &Violation) -> Vec<String> {
         vec![format!("kind:{:?}", sc.kind), format!("label:{}", sc.label)]
     }
